@@ -11,6 +11,7 @@ package c07
 import (
 	"bufio"
 	"context"
+	"crypto/sha256"
 	"encoding/json"
 	"fmt"
 	"io/ioutil"
@@ -28,6 +29,7 @@ import (
 	ipfscluster "github.com/ipfs/ipfs-cluster"
 	"github.com/ipfs/ipfs-cluster/allocator/ascendalloc"
 	"github.com/ipfs/ipfs-cluster/api"
+	"github.com/ipfs/ipfs-cluster/config"
 	"github.com/ipfs/ipfs-cluster/consensus/crdt"
 	"github.com/ipfs/ipfs-cluster/consensus/raft"
 	"github.com/ipfs/ipfs-cluster/datastore/inmem"
@@ -154,13 +156,42 @@ func (g *blockGater) InterceptSecured(_ network.Direction, p peer.ID, _ network.
 }
 func (g *blockGater) InterceptUpgraded(network.Conn) (bool, control.DisconnectReason) { return true, 0 }
 
-func fullHost() (host.Host, *pubsub.PubSub, *dual.DHT, error) {
-	return gatedHost(&blockGater{})
+// swarmSecret is the cluster secret (libp2p private network key) shared by
+// every host of a run: the hosts under test come from ipfscluster.NewClusterHost,
+// which always sets up a private network.
+func swarmSecret() []byte {
+	sum := sha256.Sum256([]byte(fmt.Sprintf("c07-secret-%d", hx.Seed())))
+	return sum[:]
+}
+
+// clusterHost builds host, pubsub and DHT exactly as a cluster peer does
+// (ipfscluster.NewClusterHost -> newHost, newPubSub, newDHT): the pubsub
+// signature policy and the transports are the repository's, not the harness's.
+func clusterHost() (host.Host, *pubsub.PubSub, *dual.DHT, error) {
+	ident, err := config.NewIdentity()
+	if err != nil {
+		return nil, nil, nil, err
+	}
+	cfg := &ipfscluster.Config{}
+	if err := cfg.Default(); err != nil {
+		return nil, nil, nil, err
+	}
+	cfg.Secret = swarmSecret()
+	la, _ := ma.NewMultiaddr("/ip4/127.0.0.1/tcp/0")
+	cfg.ListenAddr = []ma.Multiaddr{la}
+	return ipfscluster.NewClusterHost(context.Background(), ident, cfg, inmem.New())
+}
+
+// plainHost is a harness-owned libp2p host in the same private network.
+func plainHost(opts ...libp2p.Option) (host.Host, error) {
+	opts = append([]libp2p.Option{libp2p.ListenAddrStrings("/ip4/127.0.0.1/tcp/0"),
+		libp2p.PrivateNetwork(swarmSecret())}, opts...)
+	return libp2p.New(context.Background(), opts...)
 }
 
 func gatedHost(g *blockGater) (host.Host, *pubsub.PubSub, *dual.DHT, error) {
 	ctx := context.Background()
-	h, err := libp2p.New(ctx, libp2p.ListenAddrStrings("/ip4/127.0.0.1/tcp/0"), libp2p.ConnectionGater(g))
+	h, err := plainHost(libp2p.ConnectionGater(g))
 	if err != nil {
 		return nil, nil, nil, err
 	}
@@ -226,6 +257,7 @@ type world struct {
 	clients map[string]*rpc.Client
 	eps     []endpoint
 	holes   []string
+	mode    string
 	someCid cid.Cid
 	unknown peer.ID
 }
@@ -263,7 +295,7 @@ func newWorld(sc *script, names *hx.Names) (w *world, err error) {
 		return w, err
 	}
 	for _, n := range []string{"b", "c"} {
-		h, err := rig.NewHost()
+		h, err := plainHost()
 		if err != nil {
 			return w, err
 		}
@@ -271,9 +303,10 @@ func newWorld(sc *script, names *hx.Names) (w *world, err error) {
 		w.clients[n] = rpc.NewClient(h, version.RPCProtocol)
 	}
 	store := inmem.New()
+	w.mode = sc.Cfg.Mode
 	switch sc.Cfg.Mode {
 	case "crdt":
-		h, ps, idht, err := fullHost()
+		h, ps, idht, err := clusterHost()
 		if err != nil {
 			return w, err
 		}
@@ -295,11 +328,11 @@ func newWorld(sc *script, names *hx.Names) (w *world, err error) {
 		}
 		w.cons = cons
 	case "raft":
-		h, err := rig.NewHost()
+		h, _, idht, err := clusterHost()
 		if err != nil {
 			return w, err
 		}
-		w.a = h
+		w.a, w.dht = h, idht
 		rcfg := &raft.Config{}
 		if err := rcfg.Default(); err != nil {
 			return w, err
@@ -387,7 +420,7 @@ func newWorld(sc *script, names *hx.Names) (w *world, err error) {
 }
 
 // arg builds a harmless, well-formed argument of the endpoint's declared type.
-func (w *world) arg(e endpoint) interface{} {
+func (w *world) arg(e endpoint, caller string) interface{} {
 	selfAddr := func() api.Multiaddr {
 		m, _ := ma.NewMultiaddr(fmt.Sprintf("%s/p2p/%s", w.a.Addrs()[0], peer.Encode(w.a.ID())))
 		return api.NewMultiaddrWithValue(m)
@@ -409,6 +442,12 @@ func (w *world) arg(e endpoint) interface{} {
 		return w.someCid
 	case reflect.TypeOf(peer.ID("")):
 		if strings.Contains(e.Method, "Add") {
+			if w.mode == "crdt" && caller != "a" {
+				// the join handshake as a joining peer performs it: PeerAdd(own ID).
+				// (crdt has no membership; in Raft adding a host that runs no raft
+				// would cost the single-voter cluster its quorum.)
+				return w.remotes[caller].ID()
+			}
 			return w.a.ID() // already a member: no membership change
 		}
 		return w.unknown // not a member: nothing to remove
@@ -448,9 +487,9 @@ func (w *world) call(caller string, e endpoint) (outcome, string) {
 	reply := reflect.New(e.Reply.Elem()).Interface()
 	var err error
 	if caller == "a" {
-		err = w.api.RPC().CallContext(ctx, "", e.Svc, e.Method, w.arg(e), reply)
+		err = w.api.RPC().CallContext(ctx, "", e.Svc, e.Method, w.arg(e, caller), reply)
 	} else {
-		err = w.clients[caller].CallContext(ctx, w.a.ID(), e.Svc, e.Method, w.arg(e), reply)
+		err = w.clients[caller].CallContext(ctx, w.a.ID(), e.Svc, e.Method, w.arg(e, caller), reply)
 	}
 	switch {
 	case err == nil:
@@ -491,7 +530,7 @@ func (w *world) rawProbe(caller string, e endpoint, cause error) (outcome, strin
 	if err := enc.Encode(rpc.ServiceID{Name: e.Svc, Method: e.Method}); err != nil {
 		return oInfra, "raw probe: " + err.Error()
 	}
-	if err := enc.Encode(w.arg(e)); err != nil {
+	if err := enc.Encode(w.arg(e, caller)); err != nil {
 		return oInfra, "raw probe: " + err.Error()
 	}
 	if err := bw.Flush(); err != nil {
@@ -598,7 +637,21 @@ func runScript(sc *script, tr *hx.Tracer, res *hx.Result) error {
 		case "distrust":
 			err = w.cons.Distrust(ctx, pid)
 		default:
-			err = fmt.Errorf("unknown act %q", a.A)
+			if !strings.HasPrefix(a.A, "call:") {
+				err = fmt.Errorf("unknown act %q", a.A)
+				break
+			}
+			// remote peer a.P invokes one open endpoint; the sweep that follows shows
+			// whether that bought it anything
+			err = fmt.Errorf("no endpoint %q", a.A)
+			for _, e := range w.eps {
+				if "call:"+e.name() == a.A {
+					err = nil
+					if o, msg := w.call(a.P, e); o == oInfra {
+						err = fmt.Errorf("%s from %s: %s", e.name(), a.P, msg)
+					}
+				}
+			}
 		}
 		if err != nil {
 			return fmt.Errorf("script %d act %d: %v", sc.ID, i, err)
